@@ -3,6 +3,7 @@ package main
 
 import (
 	"context"
+	"errors"
 	"fmt"
 	"math/big"
 	"os"
@@ -24,11 +25,15 @@ type cfg struct {
 	Advances         int
 	Slow             bool
 	Busy             bool // the flush itself consumes clock time (a fraction of / several intervals)
+	Failing          int  `json:",omitempty"` // one backend whose sends fail: 1 the first flush only, 2 every second flush, 3 every flush
 }
 
 func (c cfg) String() string {
 	if c.Busy {
 		return fmt.Sprintf("i%v-o%v-s%d-a%d-busy", c.Interval, c.Offset, c.Start, c.Advances)
+	}
+	if c.Failing != 0 {
+		return fmt.Sprintf("i%v-o%v-s%d-a%d-failing%d", c.Interval, c.Offset, c.Start, c.Advances, c.Failing)
 	}
 	return fmt.Sprintf("i%v-o%v-s%d-a%d-slow%v", c.Interval, c.Offset, c.Start, c.Advances, c.Slow)
 }
@@ -51,8 +56,8 @@ func (a aggr) ReceiveMap(*gostatsd.MetricMap) {}
 func (a aggr) Flush(d time.Duration) {
 	a.r.flushes = append(a.r.flushes, flushRec{At: a.r.mock.Now(), Interval: d})
 }
-func (a aggr) Process(statsd.ProcessFunc) {}
-func (a aggr) Reset()                      {}
+func (a aggr) Process(f statsd.ProcessFunc) { f(gostatsd.NewMetricMap(false)) }
+func (a aggr) Reset()                       {}
 
 func (p *proc) Process(ctx context.Context, f statsd.DispatcherProcessFunc) gostatsd.Wait {
 	if p.gate != nil {
@@ -91,16 +96,33 @@ func (c recClock) NewTimer(d time.Duration) *clock.Timer {
 }
 
 type run struct {
-	mock      *clock.Mock
-	lastFlush time.Time
+	mock        *clock.Mock
+	lastFlush   time.Time
 	tickerStart time.Time
 	armedAt     time.Time
-	start     time.Time
-	flushes []flushRec
-	ticks   []time.Time
+	start       time.Time
+	flushes     []flushRec
+	ticks       []time.Time
 }
 
-// backend that records nothing; the flusher needs none for this property
+// failingBackend: a backend whose flush requests are completed with an error according to a pattern
+type failingBackend struct {
+	r       *run
+	pattern int
+	n       int
+}
+
+func (b *failingBackend) Name() string                                     { return "failing" }
+func (b *failingBackend) SendEvent(context.Context, *gostatsd.Event) error { return nil }
+func (b *failingBackend) SendMetricsAsync(ctx context.Context, mm *gostatsd.MetricMap, cb gostatsd.SendCallback) {
+	b.n++
+	if b.pattern == 3 || (b.pattern == 1 && b.n == 1) || (b.pattern == 2 && b.n%2 == 1) {
+		cb([]error{errors.New("connection refused")})
+		return
+	}
+	cb(nil)
+}
+
 func body(c cfg, r *run) func(*vsched.Exec) {
 	return func(x *vsched.Exec) {
 		*r = run{}
@@ -116,7 +138,11 @@ func body(c cfg, r *run) func(*vsched.Exec) {
 		if c.Busy {
 			p.busy = []time.Duration{c.Interval / 4, 5 * c.Interval / 2}
 		}
-		fl := statsd.NewMetricFlusher(c.Interval, c.Offset, true, p, nil)
+		var backends []gostatsd.Backend
+		if c.Failing != 0 {
+			backends = []gostatsd.Backend{&failingBackend{r: r, pattern: c.Failing}}
+		}
+		fl := statsd.NewMetricFlusher(c.Interval, c.Offset, true, p, backends)
 		vsched.GoNamed("flusher", func() { fl.Run(ctx) })
 		menu := []time.Duration{c.Interval / 2, c.Interval - 1, c.Interval + 1, 3 * c.Interval, 1, c.Interval}
 		if !vrt.Thorough() {
@@ -218,10 +244,17 @@ func configs() []cfg {
 					if slow && !(off == 0 && st%2 == 0) {
 						continue
 					}
-					cs = append(cs, cfg{iv, off, st, adv, slow, false})
+					cs = append(cs, cfg{Interval: iv, Offset: off, Start: st, Advances: adv, Slow: slow})
 				}
 				if (st == starts[0] || (vrt.Thorough() && st%2 == 0)) && (off == 0 || off == iv-1) {
-					cs = append(cs, cfg{iv, off, st, adv - 1, false, true})
+					cs = append(cs, cfg{Interval: iv, Offset: off, Start: st, Advances: adv - 1, Busy: true})
+				}
+				// a backend that fails (the first flush / every second flush / always): the time reported to the
+				// aggregators must still be what has passed between the flushes
+				if st == starts[3] && off == 0 {
+					for f := 1; f <= 3; f++ {
+						cs = append(cs, cfg{Interval: iv, Offset: off, Start: st, Advances: adv, Failing: f})
+					}
 				}
 			}
 		}
